@@ -60,7 +60,8 @@ class NetworkxGraph(AbstractGraph):
             importer = imp.importer()
             importee = imp.importee()
 
-            self._create_edge(importer, importee)
+            if self._is_import_between_known_modules(importer, importee):
+                self._create_edge(importer, importee)
 
             self._add_edges_within_module_hierarchy(
                 imp.importer_parent_modules(),
@@ -74,7 +75,20 @@ class NetworkxGraph(AbstractGraph):
             ):
                 self._create_edge(parent, child, inherits=True)
 
+    def _is_import_between_known_modules(self, importer: Node, importee: Node) -> bool:
+        """With a level limit, node names are flattened before the graph is asked whether they exist. An import of
+        something that is not a module (or of a module that has been excluded) must not turn into an import of the
+        existing module its name is flattened to, so the unflattened names are checked here."""
+        if self._level_limit is None:
+            return True
+
+        return importer in self._known_modules and importee in self._known_modules
+
     def _add_all_modules_as_nodes(self) -> None:
+        self._known_modules = set(self._all_modules)
+        for module in self._all_modules:
+            self._known_modules.update(get_parent_modules(module))
+
         for module in self._all_modules:
             self._create_node(module)
 
